@@ -48,30 +48,31 @@ def keptViews (z : Bytes) : List KM → Nat → List View
         sm.entry.comment, (z.drop sm.dataOff).take sm.entry.csize⟩ :: keptViews z r (o + m.total)
     else keptViews z r o
 
-theorem keptPMs_views {z : Bytes} {a : Archive} (hcdz : a.ends.cdOff ≤ z.length)
-    (hx : ∀ sm ∈ a.members, sm.entry.extra.length + 28 < 2 ^ 16) :
+theorem keptPMs_views {z : Bytes} {a : Archive} (hcdz : a.ends.cdOff ≤ z.length) :
     ∀ (kms : List KM) (at_ L : Nat), MeasuredL z a at_ kms → (∀ q ∈ kms, q.2.1 ∈ a.members) → L + keptLenK kms < 2 ^ 64 →
+      (∀ q ∈ keptPMs z kms L, dirHeaderOK q.1 = true) →
       (keptPMs z kms L).map (fun q => pmView q.2) = keptViews z kms L := by
   intro kms
   induction kms with
-  | nil => intro _ _ _ _ _; rfl
+  | nil => intro _ _ _ _ _ _; rfl
   | cons q r ih =>
-    intro at_ L hM hmem hb
+    intro at_ L hM hmem hb hx
     obtain ⟨k, sm, m⟩ := q
     obtain ⟨hmo, hat, hg, ⟨l, ddb, hfile⟩, hdo, hT0, hT1, hTle, hrest⟩ := hM
     have hmem' : ∀ q ∈ r, q.2.1 ∈ a.members := fun q hq => hmem q (List.mem_cons_of_mem _ hq)
     cases k with
     | false =>
-      simp only [keptPMs, keptViews, keptLenK, Bool.false_eq_true, if_false, Nat.zero_add] at hb ⊢
-      exact ih _ L hrest hmem' hb
+      simp only [keptPMs, keptViews, keptLenK, Bool.false_eq_true, if_false, Nat.zero_add] at hb hx ⊢
+      exact ih _ L hrest hmem' hb hx
     | true =>
       simp only [keptPMs, keptViews, keptLenK, if_true, List.map_cons] at hb ⊢
+      simp only [keptPMs, if_true] at hx
       have hT1' : sm.entry.flags % 16 / 8 = 1 → ∃ w, w ∈ sm.descWidths ∧ (w = 16 ∨ w = 24) ∧
           sm.entry.hoff + m.total = sm.dataOff + sm.entry.csize + w := by
         intro hd; obtain ⟨w, h1, h2, h3, _⟩ := hT1 hd; exact ⟨w, h1, h2, h3⟩
       obtain ⟨_, _, _, _, k5, v1, v2, v3, v4, v5, v6, v7, v8⟩ := kept_pm (o := L) hmo hcdz hat hfile hT0 hT1' (by omega)
-        (hx sm (hmem _ (List.mem_cons_self ..)))
-      rw [ih _ (L + m.total) hrest hmem' (by omega)]
+        (hx _ (List.mem_cons_self ..))
+      rw [ih _ (L + m.total) hrest hmem' (by omega) (fun q hq => hx q (List.mem_cons_of_mem _ hq))]
       congr 1
       simp only [pmView, v1, v2, v3, v4, v5, v6, v7, v8]
       -- the data
@@ -176,9 +177,9 @@ theorem map_fst_append {α β} (l1 l2 : List (α × β)) : (l1 ++ l2).map (·.1)
 /-- **kept members first, then added ones** (`Mangle` + `Mangler.NewFile` + `MakePatch`; `AddFile` / `NewFile` /
     `WriteDirectory` in that order): the output parses to the kept members followed by the added ones. -/
 theorem kept_news_parses {z : Bytes} {a : Archive} (hcdz : a.ends.cdOff ≤ z.length)
-    (hx : ∀ sm ∈ a.members, sm.entry.extra.length + 28 < 2 ^ 16)
     (kms : List KM) (at_ : Nat) (hM : MeasuredL z a at_ kms) (hmem : ∀ q ∈ kms, q.2.1 ∈ a.members)
     (mt md : Nat) (hmt : mt < 2 ^ 16) (hmd : md < 2 ^ 16) (news : List NewMember) (hnews : ∀ n ∈ news, NewOK n)
+    (hx : ∀ q ∈ keptPMs z kms 0, dirHeaderOK q.1 = true)
     (force : Bool) (B cd eod : Bytes) (fs : List File)
     (hB : B = keptBytesK z kms ++ (newEntries mt md news (keptLenK kms)).2)
     (hfs : fs = (keptPMs z kms 0).map (·.1) ++ (newEntries mt md news (keptLenK kms)).1)
@@ -195,7 +196,7 @@ theorem kept_news_parses {z : Bytes} {a : Archive} (hcdz : a.ends.cdOff ≤ z.le
   have hkl := keptBytesK_length hcdz kms at_ hM
   have hBl : B.length = keptLenK kms + (newEntries mt md news (keptLenK kms)).2.length := by
     rw [hB, List.length_append, hkl]
-  obtain ⟨ke, ks⟩ := kept_segment hcdz hx kms at_ [] (newEntries mt md news (keptLenK kms)).2 0 hM hmem rfl (by omega)
+  obtain ⟨ke, ks⟩ := kept_segment hcdz kms at_ [] (newEntries mt md news (keptLenK kms)).2 0 hM hmem rfl (by omega) hx
   obtain ⟨ne, ns⟩ := news_segment mt md hmt hmd news (keptLenK kms) (keptBytesK z kms) [] hnews hkl (by omega)
   simp only [List.nil_append, Nat.zero_add] at ks
   simp only [List.append_nil] at ns
@@ -212,7 +213,7 @@ theorem kept_news_parses {z : Bytes} {a : Archive} (hcdz : a.ends.cdOff ≤ z.le
       · exact ne q hq) hseg hbound
   refine ⟨a', hp', hfor, ?_, h1, h2, by rw [h3, hfs', List.length_map], h4, h5, ?_⟩
   · rw [specView_of_parse hp' hfor, List.map_map, List.map_append]
-    have e1 := keptPMs_views hcdz hx kms at_ 0 hM hmem (by omega)
+    have e1 := keptPMs_views hcdz kms at_ 0 hM hmem (by omega) hx
     have e2 := newPMs_views mt md news (keptLenK kms) hnews
     simp only [Function.comp_def]
     rw [e1, e2]
@@ -223,9 +224,9 @@ theorem kept_news_parses {z : Bytes} {a : Archive} (hcdz : a.ends.cdOff ≤ z.le
 
 /-- **added members first, then kept ones** (`insertSignature` of lib/signjar) -/
 theorem news_kept_parses {z : Bytes} {a : Archive} (hcdz : a.ends.cdOff ≤ z.length)
-    (hx : ∀ sm ∈ a.members, sm.entry.extra.length + 28 < 2 ^ 16)
     (kms : List KM) (at_ : Nat) (hM : MeasuredL z a at_ kms) (hmem : ∀ q ∈ kms, q.2.1 ∈ a.members)
     (mt md : Nat) (hmt : mt < 2 ^ 16) (hmd : md < 2 ^ 16) (news : List NewMember) (hnews : ∀ n ∈ news, NewOK n)
+    (hx : ∀ q ∈ keptPMs z kms (newEntries mt md news 0).2.length, dirHeaderOK q.1 = true)
     (force : Bool) (B cd eod : Bytes) (fs : List File)
     (hB : B = (newEntries mt md news 0).2 ++ keptBytesK z kms)
     (hfs : fs = (newEntries mt md news 0).1 ++ (keptPMs z kms (newEntries mt md news 0).2.length).map (·.1))
@@ -242,7 +243,7 @@ theorem news_kept_parses {z : Bytes} {a : Archive} (hcdz : a.ends.cdOff ≤ z.le
   have hkl := keptBytesK_length hcdz kms at_ hM
   generalize hL : (newEntries mt md news 0).2.length = L at *
   have hBl : B.length = L + keptLenK kms := by rw [hB, List.length_append, hkl, hL]
-  obtain ⟨ke, ks⟩ := kept_segment hcdz hx kms at_ (newEntries mt md news 0).2 [] L hM hmem hL (by omega)
+  obtain ⟨ke, ks⟩ := kept_segment hcdz kms at_ (newEntries mt md news 0).2 [] L hM hmem hL (by omega) hx
   obtain ⟨ne, ns⟩ := news_segment mt md hmt hmd news 0 [] (keptBytesK z kms) hnews rfl (by omega)
   simp only [List.nil_append, Nat.zero_add] at ns
   simp only [List.append_nil] at ks
@@ -260,7 +261,7 @@ theorem news_kept_parses {z : Bytes} {a : Archive} (hcdz : a.ends.cdOff ≤ z.le
       · exact ke q hq) hseg hbound
   refine ⟨a', hp', hfor, ?_, h1, h2, by rw [h3, hfs', List.length_map], h4, h5, ?_⟩
   · rw [specView_of_parse hp' hfor, List.map_map, List.map_append]
-    have e1 := keptPMs_views hcdz hx kms at_ L hM hmem (by omega)
+    have e1 := keptPMs_views hcdz kms at_ L hM hmem (by omega) hx
     have e2 := newPMs_views mt md news 0 hnews
     simp only [Function.comp_def]
     rw [e1, e2]
@@ -292,30 +293,31 @@ theorem measured_lens {z : Bytes} {a : Archive} : ∀ (kms : List KM) (at_ : Nat
     refine ⟨by omega, by omega⟩
 
 /-- the re-emitted directory is at most 28 bytes per kept entry longer than the original records -/
-theorem keptHeaders_length {z : Bytes} {a : Archive} (hcdz : a.ends.cdOff ≤ z.length)
-    (hx : ∀ sm ∈ a.members, sm.entry.extra.length + 28 < 2 ^ 16) :
+theorem keptHeaders_length {z : Bytes} {a : Archive} (hcdz : a.ends.cdOff ≤ z.length) :
     ∀ (kms : List KM) (at_ L : Nat), MeasuredL z a at_ kms → (∀ q ∈ kms, q.2.1 ∈ a.members) → L + keptLenK kms < 2 ^ 64 →
+    (∀ q ∈ keptPMs z kms L, dirHeaderOK q.1 = true) →
     (headersOf ((keptPMs z kms L).map (·.1))).1.length ≤ lenSum kms + 28 * kms.length := by
   intro kms
   induction kms with
-  | nil => intro _ _ _ _ _; simp [keptPMs, headersOf]
+  | nil => intro _ _ _ _ _ _; simp [keptPMs, headersOf]
   | cons q r ih =>
-    intro at_ L hM hmem hb
+    intro at_ L hM hmem hb hx
     obtain ⟨k, sm, m⟩ := q
     obtain ⟨hmo, hat, hg, ⟨l, ddb, hfile⟩, hdo, hT0, hT1, hTle, hrest⟩ := hM
     have hmem' : ∀ q ∈ r, q.2.1 ∈ a.members := fun q hq => hmem q (List.mem_cons_of_mem _ hq)
     cases k with
     | false =>
-      simp only [keptPMs, keptLenK, Bool.false_eq_true, if_false, Nat.zero_add, lenSum, List.length_cons] at hb ⊢
-      have := ih _ L hrest hmem' hb
+      simp only [keptPMs, keptLenK, Bool.false_eq_true, if_false, Nat.zero_add, lenSum, List.length_cons] at hb hx ⊢
+      have := ih _ L hrest hmem' hb hx
       omega
     | true =>
       simp only [keptPMs, keptLenK, if_true, lenSum, List.length_cons, List.map_cons, headersOf_cons, List.length_append] at hb ⊢
+      simp only [keptPMs, if_true] at hx
       have hT1' : sm.entry.flags % 16 / 8 = 1 → ∃ w, w ∈ sm.descWidths ∧ (w = 16 ∨ w = 24) ∧
           sm.entry.hoff + m.total = sm.dataOff + sm.entry.csize + w := by
         intro hd; obtain ⟨w, h1, h2, h3, _⟩ := hT1 hd; exact ⟨w, h1, h2, h3⟩
       obtain ⟨k1, _, _, _, _, v1, _, _, _, _, _, v7, v8⟩ := kept_pm (o := L) hmo hcdz hat hfile hT0 hT1' (by omega)
-        (hx sm (hmem _ (List.mem_cons_self ..)))
+        (hx _ (List.mem_cons_self ..))
       have hb15 := (entryAt_bounds hat).2.2.2.2.2.2.2.2.2.2.2.2.2.2
       have hlen : (keptEntry sm.entry (placed L m) L).len = 46 + (keptEntry sm.entry (placed L m) L).name.length +
           (keptEntry sm.entry (placed L m) L).extra.length + (keptEntry sm.entry (placed L m) L).comment.length := by
@@ -327,7 +329,7 @@ theorem keptHeaders_length {z : Bytes} {a : Archive} (hcdz : a.ends.cdOff ≤ z.
         rw [v8]; split
         · simp only [List.length_append, z64Extra_length]; omega
         · omega
-      have := ih _ (L + m.total) hrest hmem' (by omega)
+      have := ih _ (L + m.total) hrest hmem' (by omega) (fun q hq => hx q (List.mem_cons_of_mem _ hq))
       rw [← k1.2, hlen, v1, v7]
       omega
 
@@ -337,25 +339,25 @@ theorem keptHeaders_length {z : Bytes} {a : Archive} (hcdz : a.ends.cdOff ≤ z.
 
 /-- the kept members' entries keep fixed-layout ZIP64 markers and recognisable descriptors -/
 theorem keptPMs_readable {z : Bytes} {a : Archive} (hcdz : a.ends.cdOff ≤ z.length)
-    (hx : ∀ sm ∈ a.members, sm.entry.extra.length + 28 < 2 ^ 16)
     (hfix : (a.members.all fun m => fixedNeed m.entry.need) = true) (hw : (a.members.all (widthOK a)) = true) :
     ∀ (kms : List KM) (at_ L : Nat), MeasuredL z a at_ kms → (∀ q ∈ kms, q.2.1 ∈ a.members) → L + keptLenK kms < 2 ^ 64 →
+    (∀ q ∈ keptPMs z kms L, dirHeaderOK q.1 = true) →
     ∀ q ∈ keptPMs z kms L, fixedNeed q.2.e.need = true ∧ PMWidthOK q.2 := by
   intro kms
   induction kms with
-  | nil => intro _ _ _ _ _ q hq; simp [keptPMs] at hq
+  | nil => intro _ _ _ _ _ _ q hq; simp [keptPMs] at hq
   | cons q0 r ih =>
-    intro at_ L hM hmem hb q hq
+    intro at_ L hM hmem hb hx q hq
     obtain ⟨k, sm, m⟩ := q0
     have hM' := hM
     obtain ⟨hmo, hat, hg, ⟨l, ddb, hfile⟩, hdo, hT0, hT1, hTle, hrest⟩ := hM
     have hmem' : ∀ q ∈ r, q.2.1 ∈ a.members := fun q hq => hmem q (List.mem_cons_of_mem _ hq)
     cases k with
     | false =>
-      simp only [keptPMs, keptLenK, Bool.false_eq_true, if_false, Nat.zero_add] at hb hq
-      exact ih _ L hrest hmem' hb q hq
+      simp only [keptPMs, keptLenK, Bool.false_eq_true, if_false, Nat.zero_add] at hb hq hx
+      exact ih _ L hrest hmem' hb hx q hq
     | true =>
-      simp only [keptPMs, keptLenK, if_true] at hb hq
+      simp only [keptPMs, keptLenK, if_true] at hb hq hx
       rcases List.mem_cons.mp hq with rfl | hq
       · have hsm := hmem _ (List.mem_cons_self ..)
         simp only at hsm
@@ -363,7 +365,7 @@ theorem keptPMs_readable {z : Bytes} {a : Archive} (hcdz : a.ends.cdOff ≤ z.le
             sm.entry.hoff + m.total = sm.dataOff + sm.entry.csize + w := by
           intro hd; obtain ⟨w, h1, h2, h3, _⟩ := hT1 hd; exact ⟨w, h1, h2, h3⟩
         obtain ⟨_, _, krec, _, k5, v1, v2, v3, v4, v5, v6, v7, v8⟩ := kept_pm (o := L) hmo hcdz hat hfile hT0 hT1' (by omega)
-          (hx sm hsm)
+          (hx _ (List.mem_cons_self ..))
         simp only [List.all_eq_true] at hfix hw
         refine ⟨?_, ?_⟩
         · simp only
@@ -404,7 +406,7 @@ theorem keptPMs_readable {z : Bytes} {a : Archive} (hcdz : a.ends.cdOff ≤ z.le
             · left; rw [hxw]; omega
             · right; left; exact h
             · right; right; exact h
-      · exact ih _ (L + m.total) hrest hmem' (by omega) q hq
+      · exact ih _ (L + m.total) hrest hmem' (by omega) (fun q hq => hx q (List.mem_cons_of_mem _ hq)) q hq
 
 /-- what the class `relicReadable` asks of a requested member: a descriptor (`useDesc`) that `readDataDesc` will
     recognise as 24 bytes wide — false exactly for the empty member (F7a) -/
